@@ -2158,7 +2158,9 @@ impl<T: Storage> Raft<T> {
                     return Ok(());
                 }
 
-                if self.prs().is_singleton() {
+                // The shortcut is only sound if this node is that single voter: a leader that
+                // was demoted or removed keeps leading for a while and must ask the voter.
+                if self.prs().is_singleton() && self.prs().conf().voters().contains(self.id) {
                     let read_index = self.raft_log.committed;
                     if let Some(m) = self.handle_ready_read_index(m, read_index) {
                         self.r.send(m, &mut self.msgs);
